@@ -392,6 +392,46 @@ theorem fullName_pkgDot (path : List Name) (item : Name) : ∃ rest, fullName pa
   | nil => exact ⟨item, by simp [fullName, dotJoin, pkgName, pkgDot]⟩
   | cons p ps => exact ⟨dotJoin (p :: ps ++ [item]), by simp [fullName, dotJoin, pkgName, pkgDot]⟩
 
+/-- The GENERATED key of `Module::get_function`: every name — whatever it looks like, also one
+    that itself starts with `pkg.` — is looked up under `"pkg." ++ name`. -/
+theorem get_function_key_spec (name : Name) : get_function_key name = pkgDot ++ name := by
+  simp only [get_function_key, RStr.concat, pkgDot, Id.run, List.flatten_cons, List.flatten_nil, List.append_nil]
+  rfl
+
+/-- … so distinct names are distinct keys: no two spellings reach one function. -/
+theorem get_function_key_injective (a b : Name) (h : get_function_key a = get_function_key b) : a = b := by
+  rw [get_function_key_spec, get_function_key_spec] at h
+  exact List.append_cancel_left h
+
+/-- The GENERATED `Module::get_function` is the specification `TR.get_function`: the entry
+    under `"pkg." ++ name` and nothing else. -/
+theorem Module_get_function_spec (m : Module) (want : Sig) (name : Name) :
+    Module_get_function m want name = TR.get_function m.functions want name := by
+  unfold Module_get_function get_function_at TR.get_function
+  rw [get_function_key_spec]
+
+/-- The GENERATED `Package::get_function` adds nothing of its own. -/
+theorem Package_get_function_spec (p : Package) (want : Sig) (name : Name) :
+    Package_get_function p want name = TR.get_function p.module.functions want name := by
+  simp only [Package_get_function, Id.run, Module_get_function_spec]
+  rfl
+
+/-- a full name is `pkg.` followed by the path of the item from the root -/
+theorem fullName_path (path : List Name) (item : Name) :
+    fullName path item = pkgDot ++ dotJoin (path ++ [item]) := by
+  cases path with
+  | nil => simp [fullName, dotJoin, pkgName, pkgDot]
+  | cons p ps => simp [fullName, dotJoin, pkgName, pkgDot]
+
+theorem find_none_of_not_mem : ∀ (t : Table) (k : Name), k ∉ Table.keys t → Table.find t k = none
+  | [], _, _ => rfl
+  | (k', i') :: t, k, h => by
+    simp only [Table.keys, List.map_cons, List.mem_cons, not_or] at h
+    have ih := find_none_of_not_mem t k h.2
+    have hne : k' ≠ k := fun e => h.1 e.symm
+    simp only [Table.find, List.find?_cons, hne, decide_false] at ih ⊢
+    exact ih
+
 /-- the look-up step of `get_tests` (GENERATED `get_tests_case`): a key `pkg.<rest>` that is in
     the table with the signature of a test yields the handle of exactly that entry, no panic. -/
 theorem get_tests_case_spec (dbg : Bool) (module : Module) (rest : Name) (info : FnInfo)
@@ -402,7 +442,7 @@ theorem get_tests_case_spec (dbg : Bool) (module : Module) (rest : Name) (info :
   have hstrip := strip_prefix_append pkgDot rest
   simp only [pkgDot, List.cons_append, List.nil_append] at hstrip hfind
   unfold get_tests_case
-  simp [hstrip, RUnwrap.unwrap, Module.get_function, get_function, pkgDot, hfind, hs, TestCase.new]
+  simp [hstrip, RUnwrap.unwrap, Module_get_function_spec, get_function, pkgDot, hfind, hs, TestCase.new]
 
 /-- a test key of a package is in its table, with the signature given to tests -/
 theorem testKeys_mem_table (mirName : Name → Name) (sig : Sig) (mods : List Mod) (k : Name)
